@@ -344,14 +344,17 @@ def wire_check(t: Telegram) -> tuple[str, str] | None:
     if isinstance(t.destination_address, GroupAddress):
         ok = ok and raw[4:6] == t.destination_address.raw.to_bytes(2, "big")
     if not ok:
-        return ("wire-mismatch", f"layout|frame {raw.hex()} does not carry {pdesc(t)}")
+        return ("wire-mismatch", f"{defect or 'layout'}|frame {raw.hex()} does not carry {pdesc(t)}")
     try:
         back = CEMIFrame.from_knx(frame)
         same = isinstance(back.data, CEMILData) and back.data.payload == apci and type(back.data.payload.value) is type(pv)
     except Exception as e:  # noqa: BLE001
         return ("wire-mismatch", f"{defect or 'parse:' + exc_site(e)}|{type(e).__name__}: {e}"[:300])
     if not same:
-        return ("wire-mismatch", f"{defect or 'reparse'}|{pdesc(t)} read back as {back.data.payload!r}")
+        # an empty array has no wire form at all (its frame is a 6-bit 0): same finding whether the
+        # serialiser refuses it or the frame reads back differently
+        rel = "unserialisable" if defect == "empty-array" else "wire-mismatch"
+        return (rel, f"{defect or 'reparse'}|{pdesc(t)} read back as {back.data.payload!r}")
     return None
 
 
@@ -441,6 +444,9 @@ def run_case(ctx, h: Harness, tgt: Target, spec: Any, count: bool = True) -> Non
                 inp,
                 f"{tgt.group}({v!r}) is outside {lo}..{hi} but was accepted and queued {pdesc(t)}, which the same type reads as {back!r}",
             )
+    # (5) ... nor silently dropped
+    if exc is None and not queued and oor:
+        ctx.fail(f"C11:unrepresentable-dropped:{tgt.group}", inp, f"{tgt.group}({v!r}) is outside {tgt.rng[0]}..{tgt.rng[1]}: no error and nothing queued")
     if count:
         native = bool(tgt.native(spec))
         trivial = exc is None and bool(queued) and native and not oor
@@ -921,7 +927,7 @@ def build_targets() -> list[Target]:
 
     raw_label = Probe((lambda t: "_parse_payload[raw]"), raw_decode)
     for fname, fn in (("group_value_write", group_value_write), ("group_value_response", group_value_response)):
-        ts.append(Target(f"tools:{fname}[raw]", f"tools.{fname}[raw]", lambda x, fn=fn: ((lambda v: fn(x, G, v)), raw_label), any_typed=True, native=lambda s: V.kind(s) in ("int", "bool", "list", "tuple", "bytes"), grid=raw_grid, special="raw", weight=6))
+        ts.append(Target(f"tools:{fname}[raw]", f"tools.{fname}[raw]", lambda x, fn=fn: ((lambda v: fn(x, G, v)), raw_label), any_typed=True, native=lambda s: V.kind(s) in ("int", "bool", "list", "tuple", "bytes"), grid=raw_grid, special="raw", rng=(0, 63, 1), weight=6))
 
     for d in V.all_dpts():
         rng = V.dpt_range(d)
@@ -948,6 +954,7 @@ def build_targets() -> list[Target]:
             any_typed=True,
             native=lambda s: V.kind(s) in ("int", "bool", "list"),
             grid=raw_grid,
+            rng=(0, 63, 1),
             special="raw",
             accepts=_json_only,
             weight=6,
@@ -997,7 +1004,7 @@ def selftest(ctx) -> None:
         r = wire_check(Telegram(destination_address=GroupAddress("1/2/3"), payload=GroupValueWrite(bad)))
         assert r is not None and r[0] == "unserialisable" and r[1].startswith(reason), (bad, r)
     r = wire_check(Telegram(destination_address=GroupAddress("1/2/3"), payload=GroupValueWrite(forged(()))))
-    assert r is not None and r[0] == "wire-mismatch" and r[1].startswith("empty-array"), r
+    assert r is not None and r[0] == "unserialisable" and r[1].startswith("empty-array"), r
     assert out_of_range((0, 100, 0.4), 150) and not out_of_range((0, 100, 0.4), 100.3) and not out_of_range((0, 100, 1), True)
     assert not out_of_range((0, 100, 1), float("nan")) and out_of_range((0, 100, 1), float("inf"))
     assert V.mat(T(1, F(float("inf")))) == (1, float("inf"))
